@@ -60,3 +60,47 @@ Proof.
   intros H. destruct (closure_detect_proof p fields nrows H) as [_ [_ [Hf _]]].
   rewrite Hf. reflexivity.
 Qed.
+
+(* ---- whole-dataset verification: no failure is counted, every constraint is counted as a pass *)
+
+Lemma count_false_all_true l : (forall b, In b l -> b = true) -> count_false l = 0.
+Proof.
+  induction l as [|b l IH]; intros H; [reflexivity|].
+  rewrite count_false_cons, (H b (or_introl eq_refl)), IH; [reflexivity|].
+  intros b' Hb'. apply H. right. exact Hb'.
+Qed.
+
+Lemma self_discovered_field_result p f : self_discovered f ->
+  let r := verify_field p (Some (fst f)) (snd f) in
+  fr_failures r = 0 /\ fr_passes r = Z.of_nat (length (snd f)) /\
+  forall b, In b (fr_verdicts r) -> b = true.
+Proof.
+  intros [Hw [rex [Hr Hd]]].
+  destruct (field_totals_spec_proof p (Some (fst f)) (snd f)) as (H1 & _ & H3 & H4).
+  assert (Hall : forall b, In b (map (verify p (Some (fst f))) (snd f)) -> b = true).
+  { intros b Hb. apply in_map_iff in Hb. destruct Hb as [k [<- Hk]].
+    exact (closure_proof p (fst f) rex (snd f) Hw Hr Hd k Hk). }
+  cbv zeta. rewrite H1. split; [|split; [|exact Hall]].
+  - rewrite H3. apply count_false_all_true. exact Hall.
+  - rewrite H3, (count_false_all_true _ Hall) in H4. lia.
+Qed.
+
+Definition as_fields (fields : list (column * list constr)) : list (option column * list constr) :=
+  map (fun f => (Some (fst f), snd f)) fields.
+
+Theorem closure_dataset_proof p fields : Forall self_discovered fields ->
+  let v := verify_dataset p (as_fields fields) in
+  v_failures v = 0 /\
+  v_passes v = Z.of_nat (length (flat_map (@snd column (list constr)) fields)) /\
+  forall r, In r (v_fields v) -> fr_failures r = 0.
+Proof.
+  intros H. destruct (dataset_totals_spec_proof p (as_fields fields)) as (H1 & H2 & H3).
+  cbv zeta. rewrite H3, H2, H1. unfold as_fields. rewrite map_map. cbn [fst snd].
+  clear H1 H2 H3.
+  induction H as [|f fs Hf _ IH]; [repeat split; try reflexivity; intros r []|].
+  destruct (self_discovered_field_result p f Hf) as (F1 & F2 & _).
+  destruct IH as (I1 & I2 & I3).
+  cbn [map fold_right flat_map]. cbn [fst snd]. rewrite app_length, Nat2Z.inj_add, F1, F2, I1, I2.
+  repeat split; try lia.
+  intros r [<-|Hr]; [exact F1|exact (I3 r Hr)].
+Qed.
